@@ -1,0 +1,34 @@
+//go:build verif
+
+package play
+
+// Contracts for govc (contract-based deductive verification, see /verif/DESIGN.md).
+// This file is compiled only with -tags verif and contains no executable code.
+
+//@ func SPN.MIDINoteNumber returns (m)
+//@   pure
+//@   requires note.validName(s.Name) && note.validAcc(s.Accidental)
+//@   ensures m == spec.u8(12 * (s.Octave + 1) + spec.letterSemi(note.letter(s.Name)) + note.accSemi(s.Accidental))
+
+// C01: the pitches of a chord. root = 60 + tonic + degree; bass = root + base - 12 first,
+// then root + each interval of the symbol's definition, in dictionary order.
+//@ define rootOf(k, c) 60 + spec.keySemi(note.letter(k.key.Name), op.kacc(k.key.Accidental)) + spec.intervalSize(c.Degree.Value, note.qual(c.Degree.Name))
+
+//@ func Key.Apply returns (r, err)
+//@   allocs []MIDINoteNumber, []Attribute
+//@   requires note.validName(k.key.Name) && k.cmap != nil
+//@   ensures err == nil ==> spec.dictHas(k.cmap, c.Chord.Name) && spec.validInterval(c.Degree.Value, note.qual(c.Degree.Name)) && spec.validInterval(c.Base.Value, note.qual(c.Base.Name))
+//@   ensures err == nil ==> forall(j, 0, spec.dictLen(k.cmap, c.Chord.Name), spec.validInterval(spec.dictNum(k.cmap, c.Chord.Name, j), spec.dictQual(k.cmap, c.Chord.Name, j)))
+//@   ensures spec.dictHas(k.cmap, c.Chord.Name) && spec.validInterval(c.Degree.Value, note.qual(c.Degree.Name)) && spec.validInterval(c.Base.Value, note.qual(c.Base.Name)) && forall(j, 0, spec.dictLen(k.cmap, c.Chord.Name), spec.validInterval(spec.dictNum(k.cmap, c.Chord.Name, j), spec.dictQual(k.cmap, c.Chord.Name, j))) ==> err == nil
+//@   ensures err == nil ==> len(r) == 1 + spec.dictLen(k.cmap, c.Chord.Name)
+//@   ensures err == nil ==> r[0] == spec.u8(rootOf(k, c) + spec.intervalSize(c.Base.Value, note.qual(c.Base.Name)) - 12)
+//@   ensures err == nil ==> forall(j, 0, spec.dictLen(k.cmap, c.Chord.Name), r[1+j] == spec.u8(rootOf(k, c) + spec.intervalSize(spec.dictNum(k.cmap, c.Chord.Name, j), spec.dictQual(k.cmap, c.Chord.Name, j))))
+//@   ensures err != nil ==> len(r) == 0
+//@   loop 0 modifies result
+//@   loop 0 allocs []MIDINoteNumber
+//@   loop 0 invariant 0 - 1 <= rangeindex && rangeindex < len(attrs)
+//@   loop 0 invariant len(result) == 2 + rangeindex
+//@   loop 0 invariant result[0] == spec.u8(rootOf(k, c) + spec.intervalSize(c.Base.Value, note.qual(c.Base.Name)) - 12)
+//@   loop 0 invariant forall(j, 0, rangeindex + 1, result[1+j] == spec.u8(rootOf(k, c) + spec.intervalSize(spec.dictNum(k.cmap, c.Chord.Name, j), spec.dictQual(k.cmap, c.Chord.Name, j))))
+//@   loop 0 invariant forall(j, 0, rangeindex + 1, spec.validInterval(spec.dictNum(k.cmap, c.Chord.Name, j), spec.dictQual(k.cmap, c.Chord.Name, j)))
+//@   loop 0 decreases len(attrs) - rangeindex
